@@ -11,6 +11,7 @@ package main
 import (
 	"fmt"
 	"go/types"
+	"os"
 	"reflect"
 	"sort"
 	"strings"
@@ -33,6 +34,8 @@ type dispFold struct {
 	rows []*dispRow
 	// extra: unions and the pointer wrapper — which codec types come out, not judged by BT-WIDTH
 	extra []*dispRow
+	// aux: containers of int16 under array<long>/map<long>, and int16 under long, for BT-ARR/BT-MAP only
+	aux []*dispRow
 }
 
 var dispFoldCache = map[*Program]*dispFold{}
@@ -161,6 +164,7 @@ func dispatchByFold(P *Program) *dispFold {
 		}
 	}
 	// unions and the pointer wrapper: only which codec types they produce matters here (their own rules judge them)
+	i16 := cpRTypeOfKind(reflect.Int16, false)
 	extra := []struct {
 		st string
 		s  cpVal
@@ -172,6 +176,10 @@ func dispatchByFold(P *Program) *dispFold {
 		{"union", mkUnion(sch("null", nil), sch("string", nil)), cpRTypeOfKind(reflect.String, false), "string"},
 		{"union", mkUnion(sch("null", nil), long, sch("string", nil)), cpRTypeOfKind(reflect.Int64, false), "int64"},
 		{"pointer", long, &cpRType{ID: "*int64", Kind: int64(reflect.Ptr), Elem: cpRTypeOfKind(reflect.Int64, false), Size: 8}, "*int64"},
+		// containers of an element type whose codec differs from the skip-only codec of its schema type (BT-ARR, BT-MAP)
+		{"long16", long, i16, "int16"},
+		{"array16", sch("array", map[string]cpVal{"Items": long}), &cpRType{ID: "[]int16", Kind: int64(reflect.Slice), Elem: i16, Size: 24}, "[]int16"},
+		{"map16", sch("map", map[string]cpVal{"Values": long}), &cpRType{ID: "map[string]int16", Kind: int64(reflect.Map), Elem: i16, Key: cpRTypeOfKind(reflect.String, false), Size: 8}, "map[string]int16"},
 	}
 	for _, x := range extra {
 		outs, _, ok, _ := cpFoldOpt(P, root, []cpVal{x.s, x.rt, cpUnk{ID: "arg:omit"}}, nil)
@@ -183,11 +191,31 @@ func dispatchByFold(P *Program) *dispFold {
 			if o.Panics || len(o.Results) != 2 {
 				continue
 			}
+			if strings.HasSuffix(x.st, "16") {
+				// as for the rows: outcomes in which some type was found registered are not the plain case
+				hit := false
+				for _, cl := range o.Calls {
+					if cl.Callee == "maplookup" {
+						if tup, isT := cl.Result.(cpTuple); isT && len(tup.Vs) == 2 {
+							if u, isU := tup.Vs[1].(cpUnk); isU && o.Decided[u.ID] {
+								hit = true
+							}
+						}
+					}
+				}
+				if hit {
+					continue
+				}
+			}
 			if _, isNil := o.Results[1].(cpNil); isNil {
 				if _, isI := o.Results[0].(cpIface); isI {
 					row.codecs = append(row.codecs, o.Results[0])
 				}
 			}
+		}
+		if strings.HasSuffix(x.st, "16") {
+			d.aux = append(d.aux, row)
+			continue
 		}
 		d.extra = append(d.extra, row)
 	}
@@ -407,6 +435,8 @@ func btArrMapFieldsByFold(c *Ctx) bool {
 				if isCodecIface(P, tst.Field(i).Type()) {
 					if sT, _ := codecTypeOf(cell.V); sT != nil && types.Identical(sT, leafT) {
 						okCodec = true
+					} else if os.Getenv("AVROCHECK_DEBUG") != "" {
+						fmt.Fprintf(os.Stderr, "BT-ARR/MAP %s: element codec %v (%T), leaf %v\n", what, sT, cell.V, leafT)
 					}
 				}
 			}
@@ -421,6 +451,27 @@ func btArrMapFieldsByFold(c *Ctx) bool {
 	}
 	okA, whyA := judge(arr, arr.rt.Elem, "array")
 	okM, whyM := judge(mp, mp.rt, "map")
+	// once more with an element type whose codec is not the one built when there is no Go type at all: an element
+	// codec built for the nil type (a skip-only codec) stores a value of the schema's width into the element's slot
+	findX := func(st string) *dispRow {
+		for _, r := range d.aux {
+			if r.st == st+"/extra" {
+				return r
+			}
+		}
+		return nil
+	}
+	if l16, a16, m16 := findX("long16"), findX("array16"), findX("map16"); l16 != nil && a16 != nil && m16 != nil && len(l16.codecs) == 1 {
+		if t16, _ := codecTypeOf(l16.codecs[0]); t16 != nil && !types.Identical(t16, leafT) {
+			leafT = t16
+			if okA {
+				okA, whyA = judge(a16, a16.rt.Elem, "array ([]int16)")
+			}
+			if okM {
+				okM, whyM = judge(m16, m16.rt, "map (map[string]int16)")
+			}
+		}
+	}
 	c.Rule("BT-ARR", "", 0)
 	c.Check(okA, fnKey(d.root)+"/arrayCodec-fields", pos, "for []int64 under array<long>: itemType is the slice's element type and itemCodec is the codec built for (long, int64)", "itemType and the type itemCodec was built for are not the same element type: "+whyA)
 	c.Rule("BT-MAP", "", 0)
